@@ -108,7 +108,8 @@ var consPool = []consLeaf{
 	{path: "/if[name=e2]/unit[id=1]/descr", good: []string{"u"}},
 	{path: "/cons/rng-s", good: []string{"-10", "-2", "5", "9", "-5"}, bad: []string{"-11", "0", "10", "-1", "4"}},
 	{path: "/cons/rng-u", good: []string{"1", "10", "20", "5"}, bad: []string{"0", "15", "21"}},
-	{path: "/cons/len", good: []string{"ab", "abcd"}, bad: []string{"a", "abcde"}},
+	// (length counts characters, not bytes: "éé" has 2 characters in 4 bytes, "üöäß" 4 in 8, "é" 1 in 2, "日本語文字" 5 in 15)
+	{path: "/cons/len", good: []string{"ab", "abcd", "éé", "üöäß", "日本語"}, bad: []string{"a", "abcde", "é", "日本語文字"}},
 	{path: "/cons/pat", good: []string{"abc", "a", "cab"}, bad: []string{"abd", "x", "ab1"}},
 	{path: "/cons/pat2", good: []string{"1", "123", "10"}, bad: []string{"23", "1a", "a1"}},
 	{path: "/cons/mm", good: []string{"LL:1", "LL:1,2,3"}, bad: []string{"LL:1,2,3,4"}},
